@@ -1,6 +1,6 @@
 /-
   PINS of property C03: the decision tokens of every item the property is anchored in
-  (properties.jsonl `anchors` + tools/anchor_extra.json), as they were in /repo at b30ed81 when the
+  (properties.jsonl `anchors` + tools/anchor_extra.json), as they were in /repo at 32de816 when the
   model was validated against the source.  Written by tools/pin_anchors.py; the right-hand sides are
   compared by the kernel with lean/Chrono/Extracted/Anchors.lean, which tools/extractors/anchors.py
   regenerates from /repo's working tree on every check.  A theorem that fails here means: anchored
@@ -29,6 +29,18 @@ theorem src_datetime_mod_rs_impl_Add : C03_src_datetime_mod_rs_impl_Add =
 /-- src/datetime/mod.rs:impl AddAssign -/
 theorem src_datetime_mod_rs_impl_AddAssign : C03_src_datetime_mod_rs_impl_AddAssign =
     ["<", "Tz", "TimeZone", ">", "AddAssign", "<", "TimeDelta", ">", "for", "DateTime", "<", "Tz", ">", "add_assign(", "&", "self", "v1", "TimeDelta", "v2", "self", "v2", "checked_add_signed(", "v1", "expect(", "\"…\"", "v3", "self", "timezone(", "*", "self", "v3", "from_utc_datetime(", "&", "v2", "§", "<", "Tz", "TimeZone", ">", "AddAssign", "<", "Duration", ">", "for", "DateTime", "<", "Tz", ">", "add_assign(", "&", "self", "v1", "Duration", "v1", "TimeDelta", "from_std(", "v1", "expect(", "\"…\"", "*", "self", "+=", "v1"] := by decide +kernel
+
+/-- src/datetime/mod.rs:impl Ord -/
+theorem src_datetime_mod_rs_impl_Ord : C03_src_datetime_mod_rs_impl_Ord =
+    ["<", "Tz", "TimeZone", ">", "Ord", "for", "DateTime", "<", "Tz", ">", "cmp(", "&", "self", "v1", "&", "DateTime", "<", "Tz", ">", "->", "Ordering", "self", "v2", "cmp(", "&", "v1", "v2"] := by decide +kernel
+
+/-- src/datetime/mod.rs:impl PartialEq -/
+theorem src_datetime_mod_rs_impl_PartialEq : C03_src_datetime_mod_rs_impl_PartialEq =
+    ["<", "Tz", "TimeZone", "Tz2", "TimeZone", ">", "PartialEq", "<", "DateTime", "<", "Tz2", ">>", "for", "DateTime", "<", "Tz", ">", "eq(", "&", "self", "v1", "&", "DateTime", "<", "Tz2", ">", "->", "bool", "self", "v2", "==", "v1", "v2"] := by decide +kernel
+
+/-- src/datetime/mod.rs:impl PartialOrd -/
+theorem src_datetime_mod_rs_impl_PartialOrd : C03_src_datetime_mod_rs_impl_PartialOrd =
+    ["<", "Tz", "TimeZone", "Tz2", "TimeZone", ">", "PartialOrd", "<", "DateTime", "<", "Tz2", ">>", "for", "DateTime", "<", "Tz", ">", "partial_cmp(", "&", "self", "v1", "&", "DateTime", "<", "Tz2", ">", "->", "Option", "<", "Ordering", ">", "self", "v2", "partial_cmp(", "&", "v1", "v2"] := by decide +kernel
 
 /-- src/datetime/mod.rs:impl Sub -/
 theorem src_datetime_mod_rs_impl_Sub : C03_src_datetime_mod_rs_impl_Sub =
@@ -62,9 +74,17 @@ theorem src_naive_date_mod_rs_fn_checked_sub_signed : C03_src_naive_date_mod_rs_
 theorem src_naive_date_mod_rs_fn_signed_duration_since : C03_src_naive_date_mod_rs_fn_signed_duration_since =
     ["self", "v1", "NaiveDate", "->", "TimeDelta", "v2", "self", "year(", "v3", "v1", "year(", "let(", "v4", "v5", "div_mod_floor(", "v2", "400", "let(", "v6", "v7", "div_mod_floor(", "v3", "400", "v8", "yo_to_cycle(", "v5", "as", "u32", "self", "ordinal(", "as", "i64", "v9", "yo_to_cycle(", "v7", "as", "u32", "v1", "ordinal(", "as", "i64", "v10", "v4", "as", "i64", "-", "v6", "as", "i64", "*", "146097", "+", "v8", "-", "v9", "expect(", "TimeDelta", "try_days(", "v10", "\"…\""] := by decide +kernel
 
+/-- src/naive/date/mod.rs:impl Add -/
+theorem src_naive_date_mod_rs_impl_Add : C03_src_naive_date_mod_rs_impl_Add =
+    ["Add", "<", "TimeDelta", ">", "for", "NaiveDate", "Output", "NaiveDate", "add(", "self", "v1", "TimeDelta", "->", "NaiveDate", "self", "checked_add_signed(", "v1", "expect(", "\"…\"", "§", "Add", "<", "Months", ">", "for", "NaiveDate", "Output", "NaiveDate", "add(", "self", "v1", "Months", "->", "Self", "Output", "self", "checked_add_months(", "v1", "expect(", "\"…\"", "§", "Add", "<", "Days", ">", "for", "NaiveDate", "Output", "NaiveDate", "add(", "self", "v1", "Days", "->", "Self", "Output", "self", "checked_add_days(", "v1", "expect(", "\"…\""] := by decide +kernel
+
 /-- src/naive/date/mod.rs:impl AddAssign -/
 theorem src_naive_date_mod_rs_impl_AddAssign : C03_src_naive_date_mod_rs_impl_AddAssign =
     ["AddAssign", "<", "TimeDelta", ">", "for", "NaiveDate", "add_assign(", "&", "self", "v1", "TimeDelta", "*", "self", "self", "add(", "v1"] := by decide +kernel
+
+/-- src/naive/date/mod.rs:impl Sub -/
+theorem src_naive_date_mod_rs_impl_Sub : C03_src_naive_date_mod_rs_impl_Sub =
+    ["Sub", "<", "Months", ">", "for", "NaiveDate", "Output", "NaiveDate", "sub(", "self", "v1", "Months", "->", "Self", "Output", "self", "checked_sub_months(", "v1", "expect(", "\"…\"", "§", "Sub", "<", "Days", ">", "for", "NaiveDate", "Output", "NaiveDate", "sub(", "self", "v1", "Days", "->", "Self", "Output", "self", "checked_sub_days(", "v1", "expect(", "\"…\"", "§", "Sub", "<", "TimeDelta", ">", "for", "NaiveDate", "Output", "NaiveDate", "sub(", "self", "v1", "TimeDelta", "->", "NaiveDate", "self", "checked_sub_signed(", "v1", "expect(", "\"…\"", "§", "Sub", "<", "NaiveDate", ">", "for", "NaiveDate", "Output", "TimeDelta", "sub(", "self", "v1", "NaiveDate", "->", "TimeDelta", "self", "signed_duration_since(", "v1"] := by decide +kernel
 
 /-- src/naive/date/mod.rs:impl SubAssign -/
 theorem src_naive_date_mod_rs_impl_SubAssign : C03_src_naive_date_mod_rs_impl_SubAssign =
@@ -78,9 +98,17 @@ theorem src_naive_date_mod_rs_type_NaiveDateDaysIterator : C03_src_naive_date_mo
 theorem src_naive_date_mod_rs_type_NaiveDateWeeksIterator : C03_src_naive_date_mod_rs_type_NaiveDateWeeksIterator =
     ["v1", "NaiveDate", "§", "Iterator", "for", "NaiveDateWeeksIterator", "Item", "NaiveDate", "next(", "&", "self", "->", "Option", "<", "Self", "Item", ">", "v1", "self", "v2", "self", "v2", "v1", "checked_add_days(", "Days", "new(", "7", "?", "Some(", "v1", "size_hint(", "&", "self", "->", "usize", "Option", "<", "usize", ">", "v3", "NaiveDate", "MAX", "signed_duration_since(", "self", "v2", "num_weeks(", "v3", "as", "usize", "Some(", "v3", "as", "usize", "§", "ExactSizeIterator", "for", "NaiveDateWeeksIterator", "§", "DoubleEndedIterator", "for", "NaiveDateWeeksIterator", "next_back(", "&", "self", "->", "Option", "<", "Self", "Item", ">", "v1", "self", "v2", "self", "v2", "v1", "checked_sub_days(", "Days", "new(", "7", "?", "Some(", "v1", "§", "FusedIterator", "for", "NaiveDateWeeksIterator"] := by decide +kernel
 
+/-- src/naive/datetime/mod.rs:fn checked_add_days -/
+theorem src_naive_datetime_mod_rs_fn_checked_add_days : C03_src_naive_datetime_mod_rs_fn_checked_add_days =
+    ["self", "v1", "Days", "->", "Option", "<", "Self", ">", "Some(", "Self", "v2", "try_opt!(", "self", "v2", "checked_add_days(", "v1", "..", "self"] := by decide +kernel
+
 /-- src/naive/datetime/mod.rs:fn checked_add_signed -/
 theorem src_naive_datetime_mod_rs_fn_checked_add_signed : C03_src_naive_datetime_mod_rs_fn_checked_add_signed =
     ["self", "v1", "TimeDelta", "->", "Option", "<", "NaiveDateTime", ">", "let(", "v2", "v3", "self", "v2", "overflowing_add_signed(", "v1", "v3", "try_opt!(", "TimeDelta", "try_seconds(", "v3", "v4", "try_opt!(", "self", "v4", "checked_add_signed(", "v3", "Some(", "NaiveDateTime", "v4", "v2"] := by decide +kernel
+
+/-- src/naive/datetime/mod.rs:fn checked_sub_days -/
+theorem src_naive_datetime_mod_rs_fn_checked_sub_days : C03_src_naive_datetime_mod_rs_fn_checked_sub_days =
+    ["self", "v1", "Days", "->", "Option", "<", "Self", ">", "Some(", "Self", "v2", "try_opt!(", "self", "v2", "checked_sub_days(", "v1", "..", "self"] := by decide +kernel
 
 /-- src/naive/datetime/mod.rs:fn checked_sub_signed -/
 theorem src_naive_datetime_mod_rs_fn_checked_sub_signed : C03_src_naive_datetime_mod_rs_fn_checked_sub_signed =
